@@ -1,4 +1,4 @@
-CONSTANTS MaxFacts = 5  MaxOps = 5  KeyKind = "canon"
+CONSTANTS MaxFacts = 5  MaxOps = 5  MemoDepth = 3  KeyKind = "canon"
 INIT Init
 NEXT Next
 VIEW View
